@@ -192,7 +192,7 @@ func c12Hints(rng *fw.Rand) (map[gozxing.EncodeHintType]interface{}, string) {
 }
 
 func c12Dim(rng *fw.Rand) int {
-	switch rng.Intn(12) {
+	switch rng.Intn(13) {
 	case 0:
 		return -2147483648
 	case 1:
@@ -205,6 +205,8 @@ func c12Dim(rng *fw.Rand) int {
 		return 20000
 	case 6:
 		return 2 + rng.Intn(40)
+	case 7: // multiples of the 32-bit word and of typical symbol sizes at 32 px per module
+		return 32 * (1 + rng.Intn(30)) * []int{1, 1, 10, 12, 21}[rng.Intn(5)] / []int{1, 1, 10, 12, 21}[rng.Intn(5)]
 	default:
 		return rng.Intn(400)
 	}
